@@ -361,3 +361,8 @@ def replay_args(v):
     if "unknown" in k or "harmless" in k or "without_cause" in k:
         return ("c04_uni_streams", ["unknown"])
     return None
+
+
+# native scenarios that exercise, against the real build, the behaviours this spec decides: on a tree where the spec finds no
+# violation every one of them must NOT reproduce (a scenario that reproduces there means the spec misses something)
+SCENARIOS = [('c04_uni_streams', ['duplicates']), ('c04_uni_streams', ['unknown']), ('c04_uni_streams', ['wt'])]
